@@ -837,6 +837,19 @@ func (fc *FnCtx) evalCall(e *Expr, env *Env) Val {
 		return Val{T: sx("strcat", a[0].T, a[1].T), Sort: sInt, IsStr: true}
 	case "slenid":
 		return mathInt(sx("slen", args()[0].T))
+	case "fieldn":
+		// fieldn(x, i): the i-th field of a struct value (for values of foreign types whose fields have no
+		// accessible name, e.g. time.Time)
+		a := fc.evalExpr(e.Args[0], env)
+		var err error
+		i := -1
+		if e.Args[1].Op == "num" && e.Args[1].Num != nil && e.Args[1].Num.IsInt64() {
+			i = int(e.Args[1].Num.Int64())
+		}
+		if err != nil || i < 0 || i >= len(a.Fields) {
+			panic(bindError{fmt.Sprintf("fieldn: no field %d in a value with %d fields", i, len(a.Fields))})
+		}
+		return a.Fields[i]
 	case "deref":
 		a := args()[0]
 		if a.Typ == nil {
